@@ -253,9 +253,44 @@ func (dec *Decoder) DiscardLine() {
 	if dec.crlf {
 		return
 	}
-	var text string
-	dec.Text(&text)
-	dec.CRLF()
+	for {
+		var text string
+		dec.Text(&text)
+		if !dec.CRLF() {
+			return
+		}
+
+		// A client doesn't wait for the server before sending the data of a
+		// non-synchronizing literal: the data is part of the line and needs
+		// to be discarded as well, otherwise it'd be parsed as commands
+		size, ok := nonSyncLiteralSuffix(text)
+		if dec.side != ConnSideServer || !ok {
+			return
+		}
+		if _, err := io.CopyN(io.Discard, dec.r, size); err != nil {
+			dec.returnErr(err)
+			return
+		}
+		dec.crlf = false
+	}
+}
+
+// nonSyncLiteralSuffix checks whether a line ends with a non-synchronizing
+// literal header ("{<size>+}").
+func nonSyncLiteralSuffix(line string) (size int64, ok bool) {
+	if !strings.HasSuffix(line, "+}") {
+		return 0, false
+	}
+	line = line[:len(line)-len("+}")]
+	i := strings.LastIndexByte(line, '{')
+	if i < 0 {
+		return 0, false
+	}
+	size, err := strconv.ParseInt(line[i+1:], 10, 64)
+	if err != nil || size < 0 {
+		return 0, false
+	}
+	return size, true
 }
 
 func (dec *Decoder) DiscardValue() bool {
@@ -562,6 +597,11 @@ func (dec *Decoder) Literal(ptr *string) bool {
 	}
 	if dec.CheckBufferedLiteralFunc != nil {
 		if err := dec.CheckBufferedLiteralFunc(lit.Size(), nonSync); err != nil {
+			if nonSync {
+				// The client sends the literal data without waiting for
+				// us: discard it, otherwise it'd be parsed as commands
+				io.Copy(io.Discard, lit)
+			}
 			lit.cancel()
 			return false
 		}
@@ -623,6 +663,10 @@ func (lit *LiteralReader) Size() int64 {
 }
 
 func (lit *LiteralReader) Read(b []byte) (int, error) {
+	if lit.dec != nil {
+		// We're no longer right after the literal header's CRLF
+		lit.dec.crlf = false
+	}
 	n, err := lit.r.Read(b)
 	if err == io.EOF {
 		lit.cancel()
